@@ -18,7 +18,7 @@ pub fn def() -> PropDef {
             "Block/Header types are not parts of a transaction and are not judged here",
         ],
         streams,
-        floors: &[("validated.ok", 20_000), ("mask.TransactionBody", 60_000)],
+        floors: &[("validated.ok", 20_000), ("mask.TransactionBody", 60_000), ("builder.validated-ok", 3_000)],
         init: Some(init),
     }
 }
@@ -45,6 +45,7 @@ fn streams() -> Vec<Stream> {
         Stream { name: "body-masks", count: (1 << 18, 1 << 18), exhaustive: true, run: body_masks },
         Stream { name: "witness-masks", count: (64 * 8, 64 * 8), exhaustive: true, run: witness_masks },
         Stream { name: "wide-index", count: (nt * 20, nt * 400), exhaustive: false, run: wide_index },
+        Stream { name: "builder-outputs", count: (30_000, 1_000_000), exhaustive: false, run: builder_outputs },
         Stream { name: "width-sweep", count: (nt * LATTICE.len() as u64 * 4, nt * LATTICE.len() as u64 * 40), exhaustive: false, run: width_sweep },
     ]
 }
@@ -148,4 +149,9 @@ fn wide_index(ctx: &mut Ctx, r: &mut Rng, i: u64) {
     let rg = reg(ctx);
     let e = &rg[(i % rg.len() as u64) as usize];
     gen_and_check_w(ctx, r, e, 2, 3, None, None, true);
+}
+
+/// every transaction the builder scenarios produce, validated with strict output assets
+fn builder_outputs(ctx: &mut Ctx, r: &mut Rng, _i: u64) {
+    super::bld::scenario(ctx, r, crate::scen::Focus::default(), super::bld::c03_monitor);
 }
